@@ -241,7 +241,7 @@ func c01units(tier string) []mc.Unit {
 			rec.refs[i].index = i + 1
 		}
 		rec2 := rec
-		rec2.locusName, rec2.seq = "second", gbSeq(tier2(tier, 20000, 100000), 3)
+		rec2.locusName, rec2.seq = "second", gbSeq(100000, 3) // more than 64 KiB of text in one record
 		rec2.refs[0].rng = fmt.Sprintf("(bases 1 to %d)", len(rec2.seq))
 		text := gbWrite(rec) + gbWrite(rec2)
 		cases := []struct {
